@@ -10,6 +10,7 @@ AP = Ref("ActionParameter")
 
 @assumed("liquer.context.Context.apply", params=dict(self=CX, query=Ref("Query"), description=Opt(Str)), returns=ST)
 def _(self, query, description=None):
+    raises(EvaluationException, label="a-nested-evaluation-or-a-link-argument-failed")
     raises(Exception, label="the-sub-evaluation-raised")
     modifies_any("State.metadata")
     ensures(rec_has(result.metadata, "is_error"))
@@ -31,8 +32,12 @@ def _(self, p, action):
             "a-string-argument-passes-through")
     ensures(implies(isinst(p, "LinkActionParameter"), log_count("Context.evaluate") + log_count("Context.apply") == 1
                     and log_count("MetadataContextMixin.error") == 0), "a-link-is-evaluated-once,and-a-returned-value-means-it-succeeded")
-    ensures(raised("query") == old(self.raw_query), "onraise:EvaluationException:the-exception-names-the-query-being-evaluated")
-    ensures(implies(isinst(p, "LinkActionParameter"), raised("position") == p.position and log_count("MetadataContextMixin.error") == 1
+    # an exception that comes up from the sub-evaluation itself passes through unchanged (it names the nested query and the position in it);
+    # the two clauses below are about the exception made HERE, after the sub-evaluation returned a failed state
+    ensures(implies(log_raised("Context.evaluate") + log_raised("Context.apply") == 0, raised("query") == old(self.raw_query)),
+            "onraise:EvaluationException:the-exception-names-the-query-being-evaluated")
+    ensures(implies(isinst(p, "LinkActionParameter") and log_raised("Context.evaluate") + log_raised("Context.apply") == 0,
+                    raised("position") == p.position and log_count("MetadataContextMixin.error") == 1
                     and log_arg("MetadataContextMixin.error", "query") == old(self.raw_query)
                     and log_arg("MetadataContextMixin.error", "position") == p.position),
             "onraise:EvaluationException:the-failure-is-logged-and-reported-at-the-position-of-the-failing-argument")
